@@ -1320,6 +1320,7 @@ class Interp:
             self.assume(ops.z3bool(c) if is_symbolic(c) else bool(c))
             self.assume_lemmas(spec.get('lemmas', []), fr)
             var0 = self.eval_variant(spec, fr)
+            pre_env = dict(fr.env)
             try:
                 self.exec_block(s.body, fr)
             except ContinueEx:
@@ -1328,6 +1329,15 @@ class Interp:
                 return
             self.check_promotion(s, fr, o)
             self.check_invariants(spec, fr, tag, 'preserve', s.lineno)
+            # transition clauses: relate the state at the head of an iteration (pre('x')) to the state at its back edge
+            for n, tr in enumerate(spec.get('transition', [])):
+                saved = self.spec_env.get('pre')
+                self.spec_env['pre'] = lambda name: pre_env[name]
+                try:
+                    g = self.eval_spec(tr, fr)
+                finally:
+                    self.spec_env['pre'] = saved
+                self.oblige('%s.trans%d' % (tag, n), g, 'invariant', s.lineno, note=tr)
             if var0 is not None:
                 var1 = self.eval_variant(spec, fr)
                 self.oblige(tag + '.variant', self.lex_less(var1, var0), 'variant', s.lineno)
